@@ -2,6 +2,8 @@
 # usage: trymutant.sh <patch.diff> <prop> [<prop>...]   (env BKSIM_RUNS honoured)
 # Applies the patch to /repo's working tree, builds+tests the repo, runs the given quick checks, restores /repo.
 export GOFLAGS=-mod=mod GOPROXY=off GOSUMDB=off GOTOOLCHAIN=local
+# evidence of runs against a deliberately broken tree must not overwrite the registered evidence files
+export BKSIM_EVIDENCE_DIR=/tmp/bksim-mutant-evidence; mkdir -p $BKSIM_EVIDENCE_DIR
 patch="$1"; shift
 cd /repo || exit 2
 if [ -n "$(git status --porcelain)" ]; then echo "/repo not clean"; exit 2; fi
